@@ -55,26 +55,57 @@ func fieldReads(fn *ssa.Function, out map[string]bool) {
 	walk(fn)
 }
 
-// condAtoms: the comparisons / boolean sources a branch condition is made of; ok=false when it contains a phi
-// (a stored boolean) whose make-up this reader does not reconstruct.
-func condAtoms(v ssa.Value, out map[string]bool) bool {
-	switch x := v.(type) {
-	case *ssa.UnOp:
-		if x.Op == token.NOT {
-			return condAtoms(x.X, out)
+// condAtom: the atom a branch condition tests and the polarity with which it tests it (cond == atom or cond == !atom);
+// ok=false for a stored boolean (phi) whose make-up this reader does not reconstruct, skip=true for loop bookkeeping.
+func condAtom(v ssa.Value) (atom string, positive bool, ok bool, skip bool) {
+	positive = true
+	for {
+		u, isU := v.(*ssa.UnOp)
+		if !isU || u.Op != token.NOT {
+			break
 		}
+		positive = !positive
+		v = u.X
+	}
+	switch x := v.(type) {
 	case *ssa.BinOp:
 		if loopBookkeeping(x) {
-			return true // an index against a length: which iteration, not whether
+			return "", true, true, true
 		}
-		if s := normCond(x); s != "" {
-			out[s] = true
-			return true
+		l, r := describeVal(x.X, 0), describeVal(x.Y, 0)
+		switch x.Op {
+		case token.EQL, token.NEQ:
+			if l > r {
+				l, r = r, l
+			}
+			if x.Op == token.NEQ {
+				positive = !positive
+			}
+			return l + " =?= " + r, positive, true, false
+		case token.LSS: // l < r
+			return l + " <? " + r, positive, true, false
+		case token.GEQ: // !(l < r)
+			return l + " <? " + r, !positive, true, false
+		case token.GTR: // r < l
+			return r + " <? " + l, positive, true, false
+		case token.LEQ: // !(r < l)
+			return r + " <? " + l, !positive, true, false
 		}
 	case *ssa.Phi:
+		return "", true, false, false
+	}
+	return "bool:" + describeVal(v, 0), positive, true, false
+}
+
+// condAtoms: the atoms of a condition (kept for callers that only need the set).
+func condAtoms(v ssa.Value, out map[string]bool) bool {
+	a, _, ok, skip := condAtom(v)
+	if !ok {
 		return false
 	}
-	out["bool:"+describeVal(v, 0)] = true
+	if !skip {
+		out[a] = true
+	}
 	return true
 }
 
@@ -139,6 +170,89 @@ func controllingAtoms(fn *ssa.Function, b *ssa.BasicBlock) (map[string]bool, boo
 	return out, ok
 }
 
+// guardTruth: the condition under which block b executes, as a boolean function of the atoms it is control dependent
+// on: the sorted atoms that matter and the truth table over them ('1' = b can be reached under that valuation,
+// atom i is bit i). ok=false when some controlling branch is not an atom, or there are too many atoms.
+func guardTruth(fn *ssa.Function, b *ssa.BasicBlock) (atoms []string, table string, ok bool) {
+	set, ok := controllingAtoms(fn, b)
+	if !ok || len(set) > 8 {
+		return nil, "", false
+	}
+	atoms = sortedKeys(set)
+	idx := map[string]int{}
+	for i, a := range atoms {
+		idx[a] = i
+	}
+	n := len(atoms)
+	eval := func(val int) bool {
+		seen := map[*ssa.BasicBlock]bool{}
+		work := []*ssa.BasicBlock{fn.Blocks[0]}
+		for len(work) > 0 {
+			x := work[len(work)-1]
+			work = work[:len(work)-1]
+			if seen[x] {
+				continue
+			}
+			seen[x] = true
+			if x == b {
+				return true
+			}
+			if iff, isIf := x.Instrs[len(x.Instrs)-1].(*ssa.If); isIf {
+				if a, pos, okA, skip := condAtom(iff.Cond); okA && !skip {
+					if i, known := idx[a]; known {
+						v := val&(1<<i) != 0
+						if v == pos {
+							work = append(work, x.Succs[0])
+						} else {
+							work = append(work, x.Succs[1])
+						}
+						continue
+					}
+				}
+			}
+			work = append(work, x.Succs...)
+		}
+		return false
+	}
+	tt := make([]bool, 1<<n)
+	for v := range tt {
+		tt[v] = eval(v)
+	}
+	// drop the atoms the function does not depend on
+	var keep []int
+	for i := 0; i < n; i++ {
+		dep := false
+		for v := range tt {
+			if v&(1<<i) == 0 && tt[v] != tt[v|1<<i] {
+				dep = true
+				break
+			}
+		}
+		if dep {
+			keep = append(keep, i)
+		}
+	}
+	var outAtoms []string
+	for _, i := range keep {
+		outAtoms = append(outAtoms, atoms[i])
+	}
+	var sb strings.Builder
+	for v := 0; v < 1<<len(keep); v++ {
+		full := 0
+		for j, i := range keep {
+			if v&(1<<j) != 0 {
+				full |= 1 << i
+			}
+		}
+		if tt[full] {
+			sb.WriteByte('1')
+		} else {
+			sb.WriteByte('0')
+		}
+	}
+	return outAtoms, sb.String(), true
+}
+
 // boundToReach: every path from s that reaches a return passes through b (b post-dominates s), and b is reachable.
 func boundToReach(s, b *ssa.BasicBlock) bool {
 	if s == b {
@@ -187,11 +301,11 @@ func (c *Ctx) rgSigs(pkgs []string) []rgSig {
 				if len(members) != 1 {
 					continue
 				}
-				atoms, ok := controllingAtoms(fn, members[0].Block())
-				if !ok {
+				atoms, table, ok := guardTruth(fn, members[0].Block())
+				if !ok || len(atoms) == 0 {
 					continue
 				}
-				sig.Guards[k] = sortedKeys(atoms)
+				sig.Guards[k] = append(append([]string{}, atoms...), "="+table)
 			}
 			if len(sig.Reads) == 0 && len(sig.Guards) == 0 {
 				continue
@@ -290,11 +404,26 @@ func (c *Ctx) ruleReadRatchet(rule string, pkgs []string, fileFilter func(string
 // ruleGuardRatchet: a step is still subject to the conditions it was subject to.
 func (c *Ctx) ruleGuardRatchet(rule string, pkgs []string, fileFilter func(string) bool, baselineFile string, min int) {
 	r := c.R
-	r.Rule(rule, "lost-guard ratchet: the committed baseline records, for every call or field store that occurs once in a function (classes as in the order ratchet), the comparisons and boolean sources of the branches it is control dependent on (polarity and operand order normalised; branches on stored booleans are not reconstructed and make the step undecided). Loop bookkeeping (a counter against a length) is left out. If the step is still there, is under no condition it was not under before, and one of the recorded atoms no longer controls it, a guard was dropped — a purge that ran only for one mode now runs for all, a clone that was made under a test is made always", min)
+	r.Rule(rule, "lost-guard ratchet: the committed baseline records, for every call or field store that occurs once in a function (classes as in the order ratchet), the comparisons and boolean sources of the branches it is control dependent on (polarity and operand order normalised; branches on stored booleans are not reconstructed and make the step undecided). Loop bookkeeping (a counter against a length) is left out. Recorded is the condition under which the step runs as a boolean function of those atoms: the atoms it really depends on and the truth table over them (reachability of the step evaluated under every valuation). If the step is still there and depends on no atom it did not depend on before, then an atom it no longer depends on, or a different truth table over the same atoms, is a dropped, widened or inverted guard; nested / merged ifs, guard clauses and De Morgan rewrites give the same table — a purge that ran only for one mode now runs for all, a clone that was made under a test is made always", min)
 	base, ok := loadRG(baselineFile)
 	if !ok {
 		r.Undec(rule, "-", "baseline:"+baselineFile, "-", "baseline file missing or unreadable")
 		return
+	}
+	// what each function called on the reviewed tree: a function that has started to call another module function
+	// may have moved a test into it (extract function), so a vanished atom is not judged there
+	recordedCallees := map[string]map[string]bool{}
+	{
+		var cs []callSig
+		if b, err := os.ReadFile(filepath.Join(homeDir(), "baselines/calls.json")); err == nil && json.Unmarshal(b, &cs) == nil {
+			for _, x := range cs {
+				m := map[string]bool{}
+				for _, k := range x.Callees {
+					m[k] = true
+				}
+				recordedCallees[x.Func] = m
+			}
+		}
 	}
 	for _, bs := range base {
 		inPkgs := false
@@ -308,6 +437,20 @@ func (c *Ctx) ruleGuardRatchet(rule string, pkgs []string, fileFilter func(strin
 		}
 		fn := c.P.Func(bs.Func)
 		cons := fmt.Sprintf("%d guarded steps", len(bs.Guards))
+		callsNewHelper := false
+		if fn != nil && fn.Blocks != nil {
+			rec, have := recordedCallees[bs.Func]
+			set := map[string]bool{}
+			directCallees(c, fn, set, nil)
+			for k := range set {
+				if strings.HasPrefix(k, "store ") || strings.HasPrefix(k, "mapstore ") || strings.HasPrefix(k, "mapdelete ") || strings.HasPrefix(k, "invoke ") {
+					continue
+				}
+				if !have || !rec[k] {
+					callsNewHelper = true
+				}
+			}
+		}
 		if fn == nil || fn.Blocks == nil {
 			r.Add(oblT(rule, bs.Func, cons, bs.File, "ok", "the function no longer exists: not decided", nil, true))
 			continue
@@ -325,35 +468,52 @@ func (c *Ctx) ruleGuardRatchet(rule string, pkgs []string, fileFilter func(strin
 			if !ok || len(members) != 1 {
 				continue
 			}
-			atoms, ok := controllingAtoms(fn, members[0].Block())
+			atoms, table, ok := guardTruth(fn, members[0].Block())
 			if !ok {
 				continue
 			}
-			decided++
-			// only a pure removal is judged: if the step also came under a condition it was not under before, the
-			// guards were rewritten (an operand re-derived, a test moved into a helper) and equivalence is not decidable here
+			rec := bs.Guards[k]
+			if len(rec) == 0 {
+				continue
+			}
+			recAtoms, recTable := rec[:len(rec)-1], strings.TrimPrefix(rec[len(rec)-1], "=")
+			name := k
+			if j := strings.LastIndex(k, "~"); j > 0 {
+				name = k[:j]
+			}
+			now := map[string]bool{}
+			for _, a := range atoms {
+				now[a] = true
+			}
 			was := map[string]bool{}
-			for _, a := range bs.Guards[k] {
+			for _, a := range recAtoms {
 				was[a] = true
 			}
-			gained := false
-			for a := range atoms {
+			gained, dropped := false, ""
+			for a := range now {
 				if !was[a] {
 					gained = true
 				}
 			}
-			if gained {
-				continue
-			}
-			for _, a := range bs.Guards[k] {
-				if !atoms[a] {
-					name := k
-					if j := strings.LastIndex(k, "~"); j > 0 {
-						name = k[:j]
-					}
-					lost = name + " (" + c.P.InstrPos(members[0]) + ") is no longer subject to [" + a + "]"
-					break
+			for _, a := range recAtoms {
+				if !now[a] {
+					dropped = a
 				}
+			}
+			switch {
+			case gained:
+				// under a test it was not under before: a new guard, or the old ones rewritten — not judged
+				continue
+			case dropped != "" && callsNewHelper:
+				continue
+			case dropped != "":
+				decided++
+				lost = name + " (" + c.P.InstrPos(members[0]) + ") no longer depends on [" + dropped + "]"
+			case table != recTable:
+				decided++
+				lost = name + " (" + c.P.InstrPos(members[0]) + ") runs under another combination of the same tests [" + strings.Join(recAtoms, "; ") + "]: truth table " + recTable + " became " + table
+			default:
+				decided++
 			}
 			if lost != "" {
 				break
@@ -361,7 +521,7 @@ func (c *Ctx) ruleGuardRatchet(rule string, pkgs []string, fileFilter func(strin
 		}
 		switch {
 		case lost != "":
-			r.Bad(rule, bs.Func, cons, bs.File, "a guard was dropped: "+lost)
+			r.Bad(rule, bs.Func, cons, bs.File, "the condition under which a step runs changed: "+lost)
 		case decided == 0:
 			r.Add(oblT(rule, bs.Func, cons, bs.File, "ok", "no recorded step could be aligned: not decided", nil, true))
 		default:
